@@ -267,7 +267,7 @@ H("C10", "wrath_header", "c10_write", timeout=1200,
   encodes=["ServerEncrypterHalf::write_encrypted_server_header", "ServerCrypto::write_encrypted_server_header"],
   inputs="as c10_roundtrip", asserts="the Write wrapper emits exactly the bytes of encrypt_server_header and leaves the same cipher state", bounds="unwind 258", assumes=[PAD_ASSUME])
 for _h in ["c11_wrath_client_header_enc", "c11_wrath_client_header_dec", "c11_wrath_server_header_enc", "c11_wrath_server_header_dec",
-           "c11_wrath_read_client", "c11_wrath_read_server", "c11_wrath_read_server_fail", "c11_wrath_write_client", "c11_wrath_write_server",
+           "c11_wrath_read_client", "c11_wrath_read_server", "c11_wrath_read_server_fifth", "c11_wrath_write_client", "c11_wrath_write_server",
            "c11_wrath_read_client_facade", "c11_wrath_read_server_facade", "c11_wrath_write_client_facade", "c11_wrath_write_server_facade"]:
     H("C11", "wrath_header", _h, timeout=1800, tiers=(["thorough"] if _h.endswith("_facade") else ["quick", "thorough"]),
       encodes=["wrath_header::{ClientCrypto,ServerCrypto,ClientEncrypterHalf,ServerEncrypterHalf,ClientDecrypterHalf,ServerDecrypterHalf}::* header entry points"],
